@@ -13,7 +13,6 @@ import (
 	"strings"
 
 	"verif/internal/gen/pdfw"
-	"verif/internal/gen/zipw"
 )
 
 // A document under fault is its base plus one or two edits. An edit addresses a *part*:
@@ -40,9 +39,9 @@ type part struct {
 	name string
 	kind string // raw | body | data | member | cdata
 	text []byte
-	rev  int // pdf: revision index
-	idx  int // pdf: object index in revision; zip: member index; xs: index into partList()
-	obj  int // pdf: object number
+	rev  int  // pdf: revision index
+	idx  int  // pdf: object index in revision; zip: member index; xs: index into partList()
+	obj  int  // pdf: object number
 	xs   bool // part of an xsBase: no drop/dup; data parts always get byte substitutions
 }
 
@@ -565,4 +564,3 @@ func buildZip(b *base, za *zipAsm, parts []part, eds []edit) []byte {
 	return assembleZip(ents)
 }
 
-var _ = zipw.Zip
